@@ -1,6 +1,835 @@
+//! itersim: the signal iterators (backend.rs, mod.rs, exfiltrators, self-pipe wake) under
+//! concurrent deliveries, nested deliveries on the consumer, add_signal and close.
+//! Serves C09 (nothing lost), C10 (nothing invented), C11 (close), and the iterator part of C03.
+
+use std::io::Error;
+use std::os::unix::io::AsRawFd;
+use std::os::unix::net::UnixStream;
+use std::panic::{catch_unwind, AssertUnwindSafe};
+
+use libc::siginfo_t;
+use sighook_shim::sim::{self, Config, DeadlockInfo, InjectCtx, Policy, ShimGuard, TState};
+use signal_hook::iterator::backend::{Handle, PollResult, SignalDelivery, SignalIterator};
+use signal_hook::iterator::exfiltrator::origin::Origin;
+use signal_hook::iterator::exfiltrator::{Exfiltrator, SignalOnly, WithOrigin, WithRawSiginfo};
+use signal_hook::iterator::SignalsInfo;
+use signal_hook::low_level::siginfo::{Cause, Sent};
+
 use crate::driver::RunSpec;
-use crate::props::Prop;
-pub const PROPS: &[Prop] = &[];
-pub fn run(_spec: &RunSpec) -> ! {
-    sighook_shim::sim::harness_error("engine not built yet")
+use crate::props::*;
+use crate::util::*;
+
+pub const ITER_REAL: &[&str] = &[
+    "src/iterator/backend.rs, src/iterator/mod.rs, exfiltrators, src/low_level/pipe.rs, src/low_level/channel.rs, signal-hook-registry: real code from /repo",
+    "real kernel UnixStream socket pairs (never blocked on: the simulator parks the thread instead)",
+    "real sigaction dispositions",
+];
+pub const ITER_STUB: &[&str] = &[
+    "thread scheduling (simulator baton)",
+    "asynchronous signal arrival (direct call of the kernel-reported disposition at a chosen scheduling point, incl. nested on the consumer)",
+    "the async reactor behind poll_signal's readiness callback: a stub doing a real non-blocking 1-byte read and otherwise arming a wake-up on the descriptor",
+];
+
+pub const PROPS: &[Prop] = &[
+    Prop {
+        id: "C09",
+        engine: Engine::Iter,
+        level: "exploration",
+        sweep_runs: 0,
+        quick_runs: 100_000,
+        thorough_runs: 3_000_000,
+        rule: "consumer in {wait loop, forever(), pending() after readiness, poll_signal with stub reactor} x exfiltrator in {SignalOnly, WithRawSiginfo, WithOrigin}; 1-2 deliverer threads, nested deliveries on the consumer thread, controller doing add_signal and finally close(); oracle evaluated at quiescence (consumer blocked on an empty pipe, nothing in flight). Non-trivial: a delivery overlapped a consumer call (its store or wake landed between the consumer's drain and the end of its scan, or while it was deciding to block). Distinct: by schedule signature.",
+        probes: &[
+            (E_ITER_STORE_DURING_SCAN, "delivery_overlapped_consumer_call"),
+            (E_ITER_QUIESCENT_EVAL, "quiescent_oracle_evaluations"),
+            (E_ITER_YIELDS, "values_yielded"),
+            (E_ITER_ADD_RACE, "add_signal_overlapped_a_delivery"),
+            (C_WAKE_EAGAIN_ALIAS, "wake_found_pipe_full"),
+        ],
+        real: ITER_REAL,
+        stub: ITER_STUB,
+        assumptions: &["EINTR from the blocking read is not injected (would need interposing read(2))"],
+    },
+    Prop {
+        id: "C10",
+        engine: Engine::Iter,
+        level: "exploration",
+        sweep_runs: 0,
+        quick_runs: 100_000,
+        thorough_runs: 3_000_000,
+        rule: "same engine with bursts up to 9 deliveries of one signal and deliveries of unwatched signals; at every yield: yields(s) <= deliveries of s begun since add_signal(s) was invoked, s watched; info exfiltrators: record byte-identical to exactly one delivery (by si_value tag), no tag twice, per-signal delivery order. Non-trivial: a burst exceeded the per-signal buffer or a delivery overlapped a consumer call. Distinct: by schedule signature.",
+        probes: &[(E_ITER_RECORDS, "info_records_checked"), (E_ITER_BURST_OVERFLOW, "burst_longer_than_buffer"), (E_ITER_YIELDS, "values_yielded"), (E_ITER_STORE_DURING_SCAN, "delivery_overlapped_consumer_call")],
+        real: ITER_REAL,
+        stub: ITER_STUB,
+        assumptions: &["WithOrigin carries no per-delivery tag: only signal, pid, uid and cause are compared, and counts"],
+    },
+    Prop {
+        id: "C11",
+        engine: Engine::Iter,
+        level: "exploration",
+        sweep_runs: 0,
+        quick_runs: 100_000,
+        thorough_runs: 3_000_000,
+        rule: "same engine; 1-3 handle clones call close() at seeded instants incl. between the two is_closed loads of one poll_signal call; oracles: is_closed sticky on every handle, consumer returns within 6 further calls, forever() ends, deadlock-after-close verdict, poll contract (Pending only if the readiness callback ran in that call and last answered false). Non-trivial: close() overlapped a consumer call. Distinct: by schedule signature.",
+        probes: &[(E_ITER_CLOSE_BETWEEN_CHECKS, "close_overlapped_consumer_call"), (E_ITER_PENDING, "poll_returned_pending"), (E_ITER_CLOSE_WHILE_BLOCKED, "close_while_consumer_blocked"), (E_ITER_YIELDS, "values_yielded")],
+        real: ITER_REAL,
+        stub: ITER_STUB,
+        assumptions: &["real tokio / async-io adapters are not part of the interleaving search (stub reactor)"],
+    },
+];
+
+pub const C_WAKE_EAGAIN_ALIAS: usize = sim::C_WAKE_EAGAIN;
+
+#[derive(Clone, Copy, PartialEq, Debug)]
+enum Mode {
+    Wait,
+    Forever,
+    Pending,
+    Poll,
+}
+
+struct DeliveryRec {
+    sig: i32,
+    tag: u64,
+    begin: u64,
+    end: Option<u64>,
+    bytes: [u8; 128],
+    dispatched: bool,
+}
+
+struct YieldRec {
+    sig: i32,
+    tag: Option<u64>,
+    seq: u64,
+}
+
+struct World {
+    seq: u64,
+    watched: Vec<(i32, u64, Option<u64>)>, // sig, add invoked, add returned
+    unwatched: Vec<i32>,
+    deliveries: Vec<DeliveryRec>,
+    yields: Vec<YieldRec>,
+    in_flight: u32,
+    consumer_tid: usize,
+    consumer_in_call: bool,
+    consumer_call_begin: u64,
+    consumer_calls_after_close: u32,
+    close_invoked: Option<u64>,
+    close_returned: Option<u64>,
+    closer_active: u32,
+    inject_sigs: Vec<i32>,
+    mode: Mode,
+    exf: u8,
+    read_fd: i32,
+    cb_ran: bool,
+    cb_last: bool,
+    armed: bool,
+}
+
+static mut WORLD: *mut World = std::ptr::null_mut();
+fn w() -> &'static mut World {
+    unsafe { &mut *WORLD }
+}
+
+fn watched_at(x: &World, sig: i32, seq: u64, by_return: bool) -> bool {
+    x.watched.iter().any(|(s, inv, ret)| *s == sig && if by_return { ret.map(|r| r < seq).unwrap_or(false) } else { *inv < seq })
+}
+
+// ---------------------------------------------------------------------------------------------
+// outputs of the three exfiltrators
+
+trait Out {
+    fn sig(&self) -> i32;
+    fn tag(&self) -> Option<u64>;
+    /// Err(description) if this record is not a faithful copy of delivery `d`
+    fn faithful(&self, d: &DeliveryRec) -> Result<(), String>;
+}
+
+impl Out for libc::c_int {
+    fn sig(&self) -> i32 {
+        *self
+    }
+    fn tag(&self) -> Option<u64> {
+        None
+    }
+    fn faithful(&self, _d: &DeliveryRec) -> Result<(), String> {
+        Ok(())
+    }
+}
+
+impl Out for siginfo_t {
+    fn sig(&self) -> i32 {
+        self.si_signo
+    }
+    fn tag(&self) -> Option<u64> {
+        Some(info_tag(self))
+    }
+    fn faithful(&self, d: &DeliveryRec) -> Result<(), String> {
+        let b = info_bytes(self);
+        if b == d.bytes {
+            Ok(())
+        } else {
+            let first = (0..128).find(|i| b[*i] != d.bytes[*i]).unwrap();
+            Err(format!("record differs from the delivery's siginfo at byte {} ({:#x} vs {:#x})", first, b[first], d.bytes[first]))
+        }
+    }
+}
+
+impl Out for Origin {
+    fn sig(&self) -> i32 {
+        self.signal
+    }
+    fn tag(&self) -> Option<u64> {
+        None
+    }
+    fn faithful(&self, _d: &DeliveryRec) -> Result<(), String> {
+        let pid = unsafe { libc::getpid() };
+        let uid = unsafe { libc::getuid() };
+        match &self.process {
+            Some(p) if p.pid == pid && p.uid == uid => {}
+            other => return Err(format!("origin process {:?} is not this process ({}, {})", other, pid, uid)),
+        }
+        if self.cause != Cause::Sent(Sent::Queue) {
+            return Err(format!("origin cause {:?} is not Sent(Queue)", self.cause));
+        }
+        Ok(())
+    }
+}
+
+fn record_yield<O: Out>(o: &O) {
+    let _g = ShimGuard::new();
+    let x = w();
+    x.seq += 1;
+    let seq = x.seq;
+    let sig = o.sig();
+    sim::count(E_ITER_YIELDS, 1);
+    sim::log(UE_YIELD, sig as u64, o.tag().unwrap_or(0));
+    // C10: watched only
+    if !watched_at(x, sig, seq, false) {
+        sim::report("C10", "yielded-unwatched-signal", &format!("the iterator yielded signal {} which it was never asked to watch", sig), false);
+    }
+    // C10: yields(s) <= deliveries of s begun since it was added
+    let ny = x.yields.iter().filter(|y| y.sig == sig).count() + 1;
+    let nd = x.deliveries.iter().filter(|d| d.sig == sig && watched_at(x, sig, d.begin + 1, false)).count();
+    if ny > nd {
+        sim::report(
+            "C10",
+            "more-yields-than-deliveries",
+            &format!("the iterator has yielded {} {} times but only {} deliveries of it have begun since it was added (event {})", sig_name(sig), ny, nd, seq),
+            false,
+        );
+    }
+    // C10: info records
+    if let Some(tag) = o.tag() {
+        sim::count(E_ITER_RECORDS, 1);
+        match x.deliveries.iter().position(|d| d.tag == tag && d.sig == sig) {
+            None => sim::report("C10", "record-of-no-delivery", &format!("yielded record of {} carries tag {} which no delivery of that signal had", sig_name(sig), tag), false),
+            Some(di) => {
+                if let Err(e) = o.faithful(&x.deliveries[di]) {
+                    sim::report("C10", "record-not-faithful", &format!("yielded record of delivery #{}: {}", di, e), false);
+                }
+                if x.yields.iter().any(|y| y.tag == Some(tag)) {
+                    sim::report("C10", "delivery-yielded-twice", &format!("delivery #{} (tag {}) was yielded twice", di, tag), false);
+                }
+                // per-signal delivery order: no earlier-yielded record of the same signal may
+                // belong to a delivery that began after this one ended
+                let end = x.deliveries[di].end.unwrap_or(u64::MAX);
+                for y in x.yields.iter() {
+                    if y.sig == sig {
+                        if let Some(t2) = y.tag {
+                            if let Some(d2) = x.deliveries.iter().find(|d| d.tag == t2) {
+                                if d2.begin > end {
+                                    sim::report("C10", "records-out-of-delivery-order", &format!("record of delivery tag {} (began at {}) was yielded before the record of delivery tag {} which had ended at {}", t2, d2.begin, tag, end), false);
+                                }
+                            }
+                        }
+                    }
+                }
+            }
+        }
+    } else if let Err(e) = o.faithful(&DeliveryRec { sig, tag: 0, begin: 0, end: None, bytes: [0; 128], dispatched: true }) {
+        if x.exf == 2 {
+            sim::count(E_ITER_RECORDS, 1);
+            sim::report("C10", "record-not-faithful", &format!("yielded origin of {}: {}", sig_name(sig), e), false);
+        }
+    } else if x.exf == 2 {
+        sim::count(E_ITER_RECORDS, 1);
+    }
+    x.yields.push(YieldRec { sig, tag: o.tag(), seq });
+}
+
+// ---------------------------------------------------------------------------------------------
+// deliveries
+
+fn do_delivery(sig: i32, nested: bool) {
+    let mut info;
+    let ctx_dummy = [0u64; 4];
+    let idx;
+    {
+        let _g = ShimGuard::new();
+        let x = w();
+        x.seq += 1;
+        idx = x.deliveries.len();
+        info = make_info(sig, idx as u64 + 1);
+        x.deliveries.push(DeliveryRec { sig, tag: idx as u64 + 1, begin: x.seq, end: None, bytes: info.0, dispatched: false });
+        x.in_flight += 1;
+        sim::log(UE_DELIVERY_BEGIN, idx as u64, sig as u64);
+        if x.consumer_in_call {
+            sim::count(E_ITER_STORE_DURING_SCAN, 1);
+        }
+        if x.watched.iter().any(|(s, _, ret)| *s == sig && ret.is_none()) {
+            sim::count(E_ITER_ADD_RACE, 1);
+        }
+        let _ = nested;
+    }
+    let disp = sim::deliver(sig, &mut info as *mut RawInfo as *mut siginfo_t, &ctx_dummy as *const _ as *mut libc::c_void);
+    {
+        let _g = ShimGuard::new();
+        let x = w();
+        x.seq += 1;
+        x.deliveries[idx].end = Some(x.seq);
+        x.deliveries[idx].dispatched = matches!(disp, sim::Disposition::Handler(_));
+        x.in_flight -= 1;
+        sim::log(UE_DELIVERY_END, idx as u64, 0);
+    }
+}
+
+fn injector() -> Box<dyn FnMut(&InjectCtx) -> bool> {
+    Box::new(|_ctx: &InjectCtx| {
+        let sig = {
+            let _g = ShimGuard::new();
+            let x = w();
+            let cands: Vec<i32> = x.inject_sigs.iter().copied().filter(|s| !sim::in_handler_for(*s)).collect();
+            if cands.is_empty() {
+                return false;
+            }
+            cands[sim::choose(sim::CK_INJECT_WHAT, cands.len() as u32) as usize]
+        };
+        do_delivery(sig, true);
+        true
+    })
+}
+
+// ---------------------------------------------------------------------------------------------
+// consumer
+
+fn call_begin() {
+    let _g = ShimGuard::new();
+    let x = w();
+    x.seq += 1;
+    x.consumer_in_call = true;
+    x.consumer_call_begin = x.seq;
+    if x.close_returned.is_some() {
+        x.consumer_calls_after_close += 1;
+        if x.consumer_calls_after_close > 6 {
+            sim::report("C11", "consumer-does-not-terminate-after-close", &format!("the consumer has made {} calls after close() returned and has still not been told that the instance is closed", x.consumer_calls_after_close), true);
+        }
+    }
+}
+fn call_end() {
+    let _g = ShimGuard::new();
+    let x = w();
+    x.seq += 1;
+    x.consumer_in_call = false;
+    if let Some(c) = x.close_invoked {
+        if c > x.consumer_call_begin && x.close_returned.map(|r| r > x.consumer_call_begin).unwrap_or(true) {
+            sim::count(E_ITER_CLOSE_BETWEEN_CHECKS, 1);
+        }
+    }
+}
+
+fn check_sticky(h: &Handle, who: &str) {
+    let closed_before = w().close_returned.is_some();
+    let c = h.is_closed();
+    if closed_before && !c {
+        let _g = ShimGuard::new();
+        sim::report("C11", "is-closed-not-sticky", &format!("is_closed() returned false on {} after close() had returned", who), true);
+    }
+}
+
+fn consume_signals<E>(mode: Mode, mut s: SignalsInfo<E>)
+where
+    E: Exfiltrator,
+    E::Output: Out,
+{
+    let h = s.handle();
+    match mode {
+        Mode::Wait => loop {
+            call_begin();
+            let batch: Vec<E::Output> = s.wait().collect();
+            call_end();
+            for o in batch.iter() {
+                record_yield(o);
+            }
+            check_sticky(&h, "the consumer's handle");
+            if s.is_closed() {
+                break;
+            }
+        },
+        Mode::Forever => {
+            let mut it = s.forever();
+            loop {
+                call_begin();
+                let n = it.next();
+                call_end();
+                match n {
+                    Some(o) => record_yield(&o),
+                    None => {
+                        if !h.is_closed() {
+                            let _g = ShimGuard::new();
+                            sim::report("C11", "forever-ended-while-open", "forever() returned None although the instance is not closed", true);
+                        }
+                        break;
+                    }
+                }
+            }
+        }
+        _ => unreachable!(),
+    }
+    {
+        let _g = ShimGuard::new();
+        if w().close_invoked.is_none() {
+            sim::report("C11", "consumer-returned-while-open", "the blocking consumer returned for good although close() was never called", true);
+        }
+    }
+    drop(s);
+}
+
+fn consume_delivery<E>(mode: Mode, mut d: SignalDelivery<UnixStream, E>)
+where
+    E: Exfiltrator,
+    E::Output: Out,
+{
+    let h = d.handle();
+    let fd = d.get_read().as_raw_fd();
+    match mode {
+        Mode::Pending => loop {
+            sighook_shim::hook::block_until_readable(fd);
+            call_begin();
+            let batch: Vec<E::Output> = d.pending().collect();
+            call_end();
+            for o in batch.iter() {
+                record_yield(o);
+            }
+            check_sticky(&h, "the consumer's handle");
+            if h.is_closed() {
+                break;
+            }
+        },
+        Mode::Poll => {
+            let mut it = SignalIterator::new(d);
+            let mut cb = |read: &mut UnixStream| -> Result<bool, Error> {
+                // stub reactor: non-blocking 1-byte read; otherwise arm a wake-up on the fd
+                let mut b = [0u8; 1];
+                sim::sp_user();
+                let r = unsafe { libc::recv(read.as_raw_fd(), b.as_mut_ptr() as *mut _, 1, libc::MSG_DONTWAIT) };
+                let _g = ShimGuard::new();
+                let x = w();
+                x.cb_ran = true;
+                x.cb_last = r > 0;
+                x.armed = r <= 0;
+                sim::log(UE_CALLBACK, (r > 0) as u64, 0);
+                Ok(r > 0)
+            };
+            loop {
+                {
+                    let x = w();
+                    x.cb_ran = false;
+                    x.cb_last = false;
+                    x.armed = false;
+                }
+                call_begin();
+                let r = it.poll_signal(&mut cb);
+                call_end();
+                match r {
+                    PollResult::Signal(o) => {
+                        sim::log(UE_POLL, 1, 0);
+                        record_yield(&o)
+                    }
+                    PollResult::Closed => {
+                        sim::log(UE_POLL, 3, 0);
+                        if !h.is_closed() {
+                            let _g = ShimGuard::new();
+                            sim::report("C11", "closed-reported-while-open", "poll_signal returned Closed although the instance is not closed", true);
+                        }
+                        break;
+                    }
+                    PollResult::Pending => {
+                        sim::log(UE_POLL, 2, 0);
+                        sim::count(E_ITER_PENDING, 1);
+                        let (ran, last, armed) = (w().cb_ran, w().cb_last, w().armed);
+                        if !ran || last {
+                            let _g = ShimGuard::new();
+                            sim::report(
+                                "C11",
+                                "pending-without-armed-wakeup",
+                                &format!(
+                                    "poll_signal returned Pending although during that call the readiness callback {} (closed: invoked {:?}, returned {:?}): the caller has no armed wake-up and would never be polled again",
+                                    if !ran { "was never consulted" } else { "last answered `true`" },
+                                    w().close_invoked,
+                                    w().close_returned
+                                ),
+                                false,
+                            );
+                        }
+                        if armed {
+                            // the reactor would wake the task when the descriptor becomes readable
+                            sighook_shim::hook::block_until_readable(fd);
+                        }
+                    }
+                    PollResult::Err(e) => sim::harness_error(&format!("poll_signal returned an error: {}", e)),
+                }
+            }
+            drop(it);
+        }
+        _ => unreachable!(),
+    }
+}
+
+// ---------------------------------------------------------------------------------------------
+
+fn classify(info: &DeadlockInfo) -> (String, String, String) {
+    let x = w();
+    let blocked = matches!(info.states.get(x.consumer_tid).map(|s| s.0), Some(TState::BlockedFd(_)));
+    if blocked && x.close_returned.is_some() {
+        return ("C11".into(), "consumer-blocked-after-close".into(), "close() had returned but the consumer is still blocked on the self-pipe".into());
+    }
+    if blocked {
+        let missing = unreported(x);
+        return ("C09".into(), "consumer-blocked-forever".into(), format!("the consumer is blocked on the self-pipe and nobody is left to wake it; unreported deliveries: {:?}", missing));
+    }
+    ("C18".into(), if info.livelock { "livelock".into() } else { "deadlock".into() }, String::new())
+}
+
+fn unreported(x: &World) -> Vec<String> {
+    let mut v = Vec::new();
+    for (i, d) in x.deliveries.iter().enumerate() {
+        if d.end.is_none() || !d.dispatched {
+            continue;
+        }
+        if !watched_at(x, d.sig, d.begin, true) {
+            continue;
+        }
+        if !x.yields.iter().any(|y| y.sig == d.sig && y.seq > d.begin) {
+            v.push(format!("delivery #{} of {} (events {}..{})", i, sig_name(d.sig), d.begin, d.end.unwrap()));
+        }
+    }
+    v
+}
+
+/// C09 at quiescence: consumer blocked on an empty pipe, nothing in flight.
+fn quiescent_oracle() {
+    let _g = ShimGuard::new();
+    let x = w();
+    sim::count(E_ITER_QUIESCENT_EVAL, 1);
+    sim::log(UE_CHECK, 9, 0);
+    if x.in_flight != 0 {
+        sim::harness_error("quiescent oracle evaluated with a delivery in flight");
+    }
+    let st = sim::thread_state(x.consumer_tid);
+    match st {
+        TState::BlockedFd(_) => {
+            let missing = unreported(x);
+            if !missing.is_empty() {
+                sim::report(
+                    "C09",
+                    "signal-lost",
+                    &format!("the consumer is blocked on the empty self-pipe (no wake-up outstanding) while these deliveries of watched signals were never reported after they happened: {:?}", missing),
+                    true,
+                );
+            }
+        }
+        TState::Finished => {}
+        other => sim::harness_error(&format!("quiescence reached with the consumer in state {:?}", other)),
+    }
+}
+
+fn do_close(h: &Handle, who: &str) {
+    {
+        let _g = ShimGuard::new();
+        let x = w();
+        x.seq += 1;
+        if x.close_invoked.is_none() {
+            x.close_invoked = Some(x.seq);
+        }
+        x.closer_active += 1;
+        sim::log(UE_CLOSE, 0, 0);
+        if matches!(sim::thread_state(x.consumer_tid), TState::BlockedFd(_)) {
+            sim::count(E_ITER_CLOSE_WHILE_BLOCKED, 1);
+        }
+    }
+    h.close();
+    {
+        let _g = ShimGuard::new();
+        let x = w();
+        x.seq += 1;
+        if x.close_returned.is_none() {
+            x.close_returned = Some(x.seq);
+        }
+        x.closer_active -= 1;
+        sim::log(UE_CLOSE, 1, 0);
+    }
+    check_sticky(h, who);
+}
+
+fn do_add(h: &Handle, sig: i32) {
+    {
+        let _g = ShimGuard::new();
+        let x = w();
+        x.seq += 1;
+        x.watched.push((sig, x.seq, None));
+        x.inject_sigs.push(sig);
+    }
+    let r = catch_unwind(AssertUnwindSafe(|| h.add_signal(sig)));
+    let _g = ShimGuard::new();
+    let x = w();
+    x.seq += 1;
+    match r {
+        Ok(Ok(())) => {
+            let seq = x.seq;
+            for e in x.watched.iter_mut() {
+                if e.0 == sig && e.2.is_none() {
+                    e.2 = Some(seq);
+                }
+            }
+        }
+        _ => sim::harness_error("add_signal failed unexpectedly"),
+    }
+}
+
+enum Inst {
+    SOnly(SignalsInfo<SignalOnly>),
+    SRaw(SignalsInfo<WithRawSiginfo>),
+    SOrigin(SignalsInfo<WithOrigin>),
+    DOnly(SignalDelivery<UnixStream, SignalOnly>),
+    DRaw(SignalDelivery<UnixStream, WithRawSiginfo>),
+    DOrigin(SignalDelivery<UnixStream, WithOrigin>),
+}
+
+pub fn run(spec: &RunSpec) -> ! {
+    let prop = spec.prop.id;
+    let world = Box::new(World {
+        seq: 0,
+        watched: Vec::new(),
+        unwatched: Vec::new(),
+        deliveries: Vec::with_capacity(64),
+        yields: Vec::with_capacity(64),
+        in_flight: 0,
+        consumer_tid: 1,
+        consumer_in_call: false,
+        consumer_call_begin: 0,
+        consumer_calls_after_close: 0,
+        close_invoked: None,
+        close_returned: None,
+        closer_active: 0,
+        inject_sigs: Vec::new(),
+        mode: Mode::Wait,
+        exf: 0,
+        read_fd: -1,
+        cb_ran: false,
+        cb_last: false,
+        armed: false,
+    });
+    unsafe { WORLD = Box::into_raw(world) };
+    let sh = sighook_shim::shm::get();
+    sighook_shim::shm::put_str(&mut sh.crash_prop, "C07");
+
+    // ---- scenario
+    let mode = [Mode::Wait, Mode::Forever, Mode::Pending, Mode::Poll][sim::work(4) as usize];
+    let mode = if prop == "C11" && sim::work(2) == 0 { Mode::Poll } else { mode };
+    let exf = sim::work(3) as u8;
+    let mut pool: Vec<i32> = SIGS.to_vec();
+    let nw = 1 + sim::work(2) as usize;
+    let mut initial = Vec::new();
+    for _ in 0..nw {
+        let i = sim::work(pool.len() as u32) as usize;
+        initial.push(pool.remove(i));
+    }
+    let added: Option<i32> = if sim::work(3) == 0 { Some(pool.remove(sim::work(pool.len() as u32) as usize)) } else { None };
+    let unwatched: Option<i32> = if sim::work(3) == 0 { Some(pool.remove(sim::work(pool.len() as u32) as usize)) } else { None };
+    let ndel = 1 + sim::work(2) as usize;
+    let mut all: Vec<i32> = initial.clone();
+    if let Some(a) = added {
+        all.push(a);
+    }
+    if let Some(u) = unwatched {
+        all.push(u);
+    }
+    let burst = prop == "C10" && sim::work(2) == 0;
+    let mut dels: Vec<Vec<i32>> = Vec::new();
+    for _ in 0..ndel {
+        let n = if burst { 5 + sim::work(5) as usize } else { 1 + sim::work(4) as usize };
+        let bs = all[sim::work(all.len() as u32) as usize];
+        dels.push((0..n).map(|_| if burst && sim::work(4) != 0 { bs } else { all[sim::work(all.len() as u32) as usize] }).collect());
+    }
+    let nclosers = if prop == "C11" { 1 + sim::work(3) as usize } else { 1 };
+    let early_close = prop == "C11" && sim::work(3) != 0;
+    let prefill = sim::work(4);
+    let policy = match sim::work(8) {
+        0 | 1 => Policy::Uniform,
+        2 => Policy::Sticky(5),
+        3 => Policy::Sticky(20),
+        4 => Policy::Sticky(50),
+        5 => Policy::Pct(0),
+        6 => Policy::Pct(1),
+        _ => Policy::Pct(2),
+    };
+    let inj = [(0u32, 1u32), (1, 30), (1, 10), (1, 4)][sim::work(4) as usize];
+    let cfg = Config {
+        prop: prop.to_string(),
+        policy,
+        silent: sim::work(4) != 0,
+        // C09-C11 quantify over interleavings, not over weak-memory outcomes: a stale Relaxed load of
+        // the channel's free-slot word may legally (C11) discard a record although slots are free,
+        // which C06 excuses (happens-before form) and C09 does not talk about.  SC runs only.
+        wm: { let _ = sim::work(6); false },
+        inject_num: inj.0,
+        inject_den: inj.1,
+        inject_budget: if inj.0 == 0 { 0 } else { 1 + sim::work(4) },
+        max_nest: 2,
+        cas_spurious_pct: [0, 0, 20][sim::work(3) as usize],
+        step_budget: 60_000,
+        pct_horizon: 300,
+    };
+    sim::note(&format!(
+        "consumer {:?} exfiltrator {} watched {:?} added-later {:?} unwatched {:?} deliverers {:?} closers {} early-close {} prefill {} policy {:?} silent {} wm {} inject {}/{} budget {}",
+        mode,
+        ["SignalOnly", "WithRawSiginfo", "WithOrigin"][exf as usize],
+        initial.iter().map(|s| sig_name(*s)).collect::<Vec<_>>(),
+        added.map(sig_name),
+        unwatched.map(sig_name),
+        dels.iter().map(|d| d.iter().map(|s| sig_name(*s)).collect::<Vec<_>>()).collect::<Vec<_>>(),
+        nclosers,
+        early_close,
+        prefill,
+        cfg.policy,
+        cfg.silent,
+        cfg.wm,
+        cfg.inject_num,
+        cfg.inject_den,
+        cfg.inject_budget
+    ));
+    {
+        let x = w();
+        x.mode = mode;
+        x.exf = exf;
+        for s in initial.iter() {
+            x.watched.push((*s, 0, Some(0)));
+            x.inject_sigs.push(*s);
+        }
+        if let Some(u) = unwatched {
+            x.unwatched.push(u);
+            x.inject_sigs.push(u);
+        }
+    }
+    sim::start(cfg);
+    sim::set_handler_step_limit(400);
+    sim::set_deadlock_classifier(Box::new(classify));
+
+    // ---- set-up (thread 0, sequential)
+    if let Some(u) = unwatched {
+        unsafe { signal_hook_registry::register(u, || ()).expect("register unwatched") };
+    }
+    let with_pipe = matches!(mode, Mode::Pending | Mode::Poll);
+    let inst: Inst = if with_pipe {
+        let (rd, wr) = UnixStream::pair().expect("socketpair");
+        rd.set_nonblocking(true).ok();
+        for _ in 0..prefill {
+            unsafe { libc::send(wr.as_raw_fd(), b"P".as_ptr() as *const _, 1, libc::MSG_DONTWAIT) };
+        }
+        w().read_fd = rd.as_raw_fd();
+        match exf {
+            0 => Inst::DOnly(SignalDelivery::with_pipe(rd, wr, SignalOnly::default(), initial.iter()).expect("with_pipe")),
+            1 => Inst::DRaw(SignalDelivery::with_pipe(rd, wr, WithRawSiginfo::default(), initial.iter()).expect("with_pipe")),
+            _ => Inst::DOrigin(SignalDelivery::with_pipe(rd, wr, WithOrigin::default(), initial.iter()).expect("with_pipe")),
+        }
+    } else {
+        match exf {
+            0 => Inst::SOnly(SignalsInfo::<SignalOnly>::new(initial.iter()).expect("Signals::new")),
+            1 => Inst::SRaw(SignalsInfo::<WithRawSiginfo>::new(initial.iter()).expect("Signals::new")),
+            _ => Inst::SOrigin(SignalsInfo::<WithOrigin>::new(initial.iter()).expect("Signals::new")),
+        }
+    };
+    let handle: Handle = match &inst {
+        Inst::SOnly(s) => s.handle(),
+        Inst::SRaw(s) => s.handle(),
+        Inst::SOrigin(s) => s.handle(),
+        Inst::DOnly(d) => d.handle(),
+        Inst::DRaw(d) => d.handle(),
+        Inst::DOrigin(d) => d.handle(),
+    };
+    sim::set_injector(injector());
+
+    // ---- threads
+    let consumer = sim::spawn("consumer", move || match inst {
+        Inst::SOnly(s) => consume_signals(mode, s),
+        Inst::SRaw(s) => consume_signals(mode, s),
+        Inst::SOrigin(s) => consume_signals(mode, s),
+        Inst::DOnly(d) => consume_delivery(mode, d),
+        Inst::DRaw(d) => consume_delivery(mode, d),
+        Inst::DOrigin(d) => consume_delivery(mode, d),
+    });
+    w().consumer_tid = consumer;
+    let mut tids = Vec::new();
+    for d in dels.into_iter() {
+        tids.push(sim::spawn("deliverer", move || {
+            for s in d.iter() {
+                sim::sp_user();
+                do_delivery(*s, false);
+            }
+        }));
+    }
+    let h2 = handle.clone();
+    let controller = sim::spawn("controller", move || {
+        if let Some(a) = added {
+            sim::sp_user();
+            do_add(&h2, a);
+        }
+        if !early_close {
+            sim::wait_quiescent();
+            sim::set_stop_inject(true);
+            quiescent_oracle();
+        }
+        do_close(&h2, "the controller's handle");
+    });
+    for k in 1..nclosers {
+        let hk = handle.clone();
+        tids.push(sim::spawn("closer", move || {
+            for _ in 0..(k * 3) {
+                sim::sp_user();
+            }
+            if !early_close {
+                // wait until the controller has evaluated the oracle
+                while w().close_invoked.is_none() {
+                    sim::wait_quiescent();
+                }
+            }
+            do_close(&hk, "a closer's handle");
+        }));
+    }
+    drop(handle);
+    for t in tids {
+        sim::join(t);
+    }
+    sim::join(controller);
+    sim::join(consumer);
+
+    // ---- after everything: nothing may be yielded for deliveries that never happened (checked at
+    // each yield); summary probes
+    let _g = ShimGuard::new();
+    let x = w();
+    let c = &sighook_shim::shm::get().counters;
+    if x.deliveries.iter().filter(|d| d.dispatched).count() > 5 && burst {
+        sim::count(E_ITER_BURST_OVERFLOW, 1);
+    }
+    let nontrivial = match prop {
+        "C09" | "C03" => c[E_ITER_STORE_DURING_SCAN] > 0,
+        "C10" => c[E_ITER_STORE_DURING_SCAN] > 0 || burst,
+        "C11" => c[E_ITER_CLOSE_BETWEEN_CHECKS] > 0 || c[E_ITER_CLOSE_WHILE_BLOCKED] > 0,
+        _ => true,
+    };
+    if nontrivial {
+        sim::mark_nontrivial();
+    }
+    sim::finish_ok()
 }
